@@ -97,39 +97,54 @@ def _child_main(job_r, res_w):
         os._exit(0)
 
 
+def _one_cycle(ctrl_r, ack_w, job_r, res_w):
+    b = os.read(ctrl_r, 1)
+    if not b or b == b"q":
+        return False
+    pid = os.fork()
+    if pid == 0:
+        if b == b"w":  # warm-up cycle: same system calls, no job
+            os._exit(0)
+        _child_main(job_r, res_w)
+    os.write(ack_w, b"p" + pid.to_bytes(8, "big"))
+    os.waitpid(pid, 0)
+    os.write(ack_w, b"d")
+    return True
+
+
 def _fork_server(ctrl_r, ack_w, job_r, res_w):
-    """The pristine process.  It never parses a job and does the same few system calls per job, so
-    that its heap - and therefore the memory image (object addresses included) every scenario
-    child starts from - does not depend on which or how many jobs were served before."""
-    while True:
-        b = os.read(ctrl_r, 1)
-        if not b or b == b"q":
-            return
-        pid = os.fork()
-        if pid == 0:
-            _child_main(job_r, res_w)
-        os.write(ack_w, b"p" + pid.to_bytes(8, "big"))
-        os.waitpid(pid, 0)
-        try:
-            os.killpg(pid, signal.SIGKILL)  # orphans of the child's process group
-        except Exception:  # noqa: BLE001
-            pass
-        os.write(ack_w, b"d")
+    """The pristine process.  It never parses a job and does the same few system calls per job,
+    holding no object from one cycle to the next, so that its heap - and therefore the memory image
+    (object addresses included) every scenario child starts from - does not depend on which or how
+    many jobs were served before."""
+    while _one_cycle(ctrl_r, ack_w, job_r, res_w):
+        pass
 
 
 def _dispatch_one(job, out, ctrl_w, ack_r, job_w, res_r):
     wall_cap = float(job.get("wall_cap", 60))
     data = json.dumps(job).encode()
+    payload = len(data).to_bytes(8, "big") + data
+    off = 0
+    if len(payload) <= 60000:
+        # the whole job sits in the pipe before the child exists: the child reads it with exactly two
+        # read() calls, whatever the timing (allocation patterns are part of the repeatable execution)
+        while off < len(payload):
+            off += os.write(job_w, payload[off:])
+    # Objects of one size class that are freed in allocation order swap places in the allocator's
+    # LIFO free list, so the fork server's heap alternates with period 2 from cycle to cycle; an empty
+    # cycle before every job keeps all scenario children on the same phase.
+    os.write(ctrl_w, b"w")
+    _read_exact(ack_r, 9)
+    _read_exact(ack_r, 1)
     os.write(ctrl_w, b"j")
     hdr = _read_exact(ack_r, 9)
     pid = int.from_bytes(hdr[1:], "big")
-    payload = len(data).to_bytes(8, "big") + data
     deadline = seams.REAL["monotonic"]() + wall_cap
     buf = b""
     need = None
     done = False
     timed_out = False
-    off = 0
     while True:
         left = deadline - seams.REAL["monotonic"]()
         if left <= 0 and not timed_out:
@@ -171,6 +186,12 @@ def _dispatch_one(job, out, ctrl_w, ack_r, job_w, res_r):
                 if need is None and len(buf) >= 8:
                     need = int.from_bytes(buf[:8], "big")
             break
+    try:
+        # orphans left in the child's process group (done here, not in the fork server, whose
+        # allocation pattern must not depend on whether there were any)
+        os.killpg(pid, signal.SIGKILL)
+    except Exception:  # noqa: BLE001
+        pass
     if timed_out:
         reply = {"id": job.get("id"), "result": {"harness_error": "wall cap %.0fs exceeded" % wall_cap}}
     elif need is not None and len(buf) >= 8 + need:
@@ -212,6 +233,12 @@ def main():
     # the dispatcher: talks to the pool, never runs a scenario itself
     for fd in (ctrl_r, ack_w, job_r, res_w):
         os.close(fd)
+    # a few warm-up cycles bring the fork server into its steady state (lazily initialised
+    # interpreter internals), so that the FIRST scenario child equals all later ones
+    for _ in range(4):
+        os.write(ctrl_w, b"w")
+        _read_exact(ack_r, 9)
+        _read_exact(ack_r, 1)
     out.write(json.dumps({"ready": True, "pid": os.getpid()}) + "\n")
     out.flush()
     try:
